@@ -1,5 +1,1012 @@
-//! C13 — not implemented yet.
+//! C13 — hash-to-field and hash-to-curve follow RFC 9380 and always land on the curve.
+mod fa;
+mod jac;
+mod maps;
+mod rfc;
+mod toys;
+mod vectors;
+
+use ark_ec::hashing::curve_maps::elligator2::{Elligator2Config, Elligator2Map};
+use ark_ec::hashing::curve_maps::swu::{SWUConfig, SWUMap};
+use ark_ec::hashing::curve_maps::wb::{WBConfig, WBMap};
+use ark_ec::hashing::map_to_curve_hasher::{MapToCurve, MapToCurveBasedHasher};
+use ark_ec::hashing::HashToCurve;
+use ark_ec::short_weierstrass::{Affine as SwAffine, Projective as SwProj, SWCurveConfig};
+use ark_ec::twisted_edwards::{Affine as TeAffine, MontCurveConfig, Projective as TeProj, TECurveConfig};
+use ark_ec::CurveConfig;
+use ark_ff::field_hashers::{DefaultFieldHasher, HashToField};
+use ark_ff::{Field, PrimeField};
+use num_bigint::BigUint;
+use num_traits::Zero;
+use sha2::digest::FixedOutputReset;
+use sha2::{Sha256, Sha512};
+use std::sync::{Arc, OnceLock};
+
+use fa::{big_hex, Fa};
+use jac::sw_mul_jac;
+use maps::*;
+use vh_core::curve::{sw_add, sw_mul, te_identity, te_mul, Sw, Te};
+use vh_core::engine::{no_panic, Fail, Obs, PropSpec, Rel, Tape, Tier, R};
+use vh_core::gen::{big_below, edge_value};
+use vh_core::modint::big;
+use vh_core::tower::{edge_elem, Elem, OracleRepr};
+use vh_core::{ensure, ensure_eq};
+
+// -----------------------------------------------------------------------------------------------
+// RFC 9380 section 8.8 constants, typed from the specification (hex), independent of /repo
+// -----------------------------------------------------------------------------------------------
+
+const BLS381_P: &str = "1a0111ea397fe69a4b1ba7b6434bacd764774b84f38512bf6730d2a0f6b0f6241eabfffeb153ffffb9feffffffffaaab";
+const BLS381_R: &str = "73eda753299d7d483339d80809a1d80553bda402fffe5bfeffffffff00000001";
+/// 8.8.1: A' and B' of the curve 11-isogenous to BLS12-381 G1, Z = 11, h_eff
+const G1_ISO_A: &str = "144698a3b8e9433d693a02c96d4982b0ea985383ee66a8d8e8981aefd881ac98936f8da0e0f97f5cf428082d584c1d";
+const G1_ISO_B: &str = "12e2908d11688030018b12e8753eee3b2016c1f0f24f4070a0b9c14fcef35ef55a23215a316ceaa5d1cc48e98e172be0";
+const G1_H_EFF: &str = "d201000000010001";
+/// 8.8.2: A' = 240 I, B' = 1012 (1 + I), Z = -(2 + I), h_eff
+const G2_H_EFF: &str = "bc69f08f2ee75b3584c6a0ea91b352888e2a8e9145ad7689986ff031508ffe1329c2f178731db956d82bf015d1212b02ec0ec69d7477c1ae954cbc06689f6a359894c0adebbf6b4e8020005aaa95551";
+
+#[derive(Clone, Copy, PartialEq)]
+enum Suite {
+    /// BLS12381G1_XMD:SHA-256_SSWU_RO_
+    G1,
+    /// BLS12381G2_XMD:SHA-256_SSWU_RO_
+    G2,
+    /// not an RFC suite: parameters are read from the configuration
+    None,
+}
+
+// -----------------------------------------------------------------------------------------------
+// contexts
+// -----------------------------------------------------------------------------------------------
+
+struct WCtx {
+    name: String,
+    f: Fa,
+    /// E' (the SWU curve): A, B, Z
+    pr: SwuParams,
+    params_ok: Result<(), String>,
+    iso: Option<IsoRef>,
+    /// target curve E
+    ea: Elem,
+    eb: Elem,
+    suite: Suite,
+    h_eff: Option<BigUint>,
+    r: BigUint,
+    toy_p: Option<u64>,
+    exc: OnceLock<(Vec<Elem>, Vec<(Elem, &'static str)>)>,
+}
+
+impl WCtx {
+    /// (x-coordinates with a special image, exceptional inputs)
+    fn exceptional(&self) -> &(Vec<Elem>, Vec<(Elem, &'static str)>) {
+        self.exc.get_or_init(|| {
+            let f = &self.f;
+            let mut targets: Vec<Elem> = Vec::new();
+            // 2-torsion of E': roots of g
+            let g = vec![self.pr.b.clone(), self.pr.a.clone(), f.zero(), f.one()];
+            for r in f.roots(&g) {
+                if !targets.contains(&r) {
+                    targets.push(r);
+                }
+            }
+            if let Some(m) = &self.iso {
+                for poly in [&m.xd, &m.yd] {
+                    for r in f.roots(poly) {
+                        if !targets.contains(&r) {
+                            targets.push(r);
+                        }
+                    }
+                }
+            }
+            let exc = if self.params_ok.is_ok() { swu_exceptional(f, &self.pr, &targets) } else { vec![(f.zero(), "exc:u=0")] };
+            (targets, exc)
+        })
+    }
+}
+
+fn elems<F: OracleRepr>(v: &[F]) -> Vec<Elem> {
+    v.iter().map(|x| x.to_o()).collect()
+}
+
+fn scalar_modulus<P: CurveConfig>() -> BigUint {
+    big(<P::ScalarField as PrimeField>::MODULUS.as_ref())
+}
+
+fn swu_ctx<P: SWUConfig>(name: &str, toy_p: Option<u64>) -> WCtx
+where
+    P::BaseField: OracleRepr,
+{
+    let f = Fa::new(<P::BaseField as OracleRepr>::tower());
+    let pr = SwuParams { a: P::COEFF_A.to_o(), b: P::COEFF_B.to_o(), z: P::ZETA.to_o() };
+    let params_ok = swu_params_ok(&f, &pr);
+    WCtx {
+        name: name.to_string(),
+        ea: pr.a.clone(),
+        eb: pr.b.clone(),
+        f,
+        pr,
+        params_ok,
+        iso: None,
+        suite: Suite::None,
+        h_eff: None,
+        r: scalar_modulus::<P>(),
+        toy_p,
+        exc: OnceLock::new(),
+    }
+}
+
+fn wb_ctx<P: WBConfig>(name: &str, suite: Suite, toy_p: Option<u64>) -> WCtx
+where
+    P::BaseField: OracleRepr,
+{
+    let f = Fa::new(<P::BaseField as OracleRepr>::tower());
+    let m = &P::ISOGENY_MAP;
+    let iso = IsoRef { xn: elems(m.x_map_numerator), xd: elems(m.x_map_denominator), yn: elems(m.y_map_numerator), yd: elems(m.y_map_denominator) };
+    let (pr, ea, eb, h_eff) = match suite {
+        Suite::G1 => (
+            SwuParams { a: Elem::P(big_hex(G1_ISO_A)), b: Elem::P(big_hex(G1_ISO_B)), z: f.int(11) },
+            f.int(0),
+            f.int(4),
+            Some(big_hex(G1_H_EFF)),
+        ),
+        Suite::G2 => {
+            let e2 = |c0: i64, c1: i64| f.tw.unflatten(&[lift(&f, c0), lift(&f, c1)]);
+            (SwuParams { a: e2(0, 240), b: e2(1012, 1012), z: e2(-2, -1) }, f.int(0), e2(4, 4), Some(big_hex(G2_H_EFF)))
+        },
+        Suite::None => (
+            SwuParams {
+                a: <P::IsogenousCurve as SWCurveConfig>::COEFF_A.to_o(),
+                b: <P::IsogenousCurve as SWCurveConfig>::COEFF_B.to_o(),
+                z: <P::IsogenousCurve as SWUConfig>::ZETA.to_o(),
+            },
+            P::COEFF_A.to_o(),
+            P::COEFF_B.to_o(),
+            None,
+        ),
+    };
+    let params_ok = swu_params_ok(&f, &pr);
+    let r = if suite == Suite::None { scalar_modulus::<P>() } else { big_hex(BLS381_R) };
+    WCtx { name: name.to_string(), f, pr, params_ok, iso: Some(iso), ea, eb, suite, h_eff, r, toy_p, exc: OnceLock::new() }
+}
+
+/// small signed integer as a canonical prime-field residue
+fn lift(f: &Fa, v: i64) -> BigUint {
+    let p = &f.prime.p;
+    if v < 0 {
+        p - BigUint::from(v.unsigned_abs())
+    } else {
+        BigUint::from(v as u64)
+    }
+}
+
+// -----------------------------------------------------------------------------------------------
+// generators
+// -----------------------------------------------------------------------------------------------
+
+fn gen_bytes(t: &mut Tape<'_>, len: usize) -> Vec<u8> {
+    match t.weighted(&[8, 1, 1]) {
+        0 => t.bytes(len),
+        1 => vec![0u8; len],
+        _ => vec![0xffu8; len],
+    }
+}
+
+/// message of 0..=300 bytes; lengths around the SHA-256 block / padding boundaries are favoured
+fn gen_msg(t: &mut Tape<'_>) -> Vec<u8> {
+    let len = match t.weighted(&[1, 2, 2, 5]) {
+        0 => 0,
+        1 => t.range(1, 8) as usize,
+        2 => t.pick(&[52usize, 53, 54, 55, 56, 63, 64, 65, 116, 117, 118, 119, 120, 127, 128, 129, 255, 256, 300]),
+        _ => t.range(0, 300) as usize,
+    };
+    gen_bytes(t, len)
+}
+
+/// domain separation tag of 0..=400 bytes, crossing the 255-byte limit
+fn gen_dst(t: &mut Tape<'_>, o: &mut Obs) -> Vec<u8> {
+    let len = match t.weighted(&[3, 2, 1, 4, 4, 2, 1]) {
+        0 => t.range(17, 64) as usize,
+        1 => t.range(1, 16) as usize,
+        2 => 0,
+        3 => t.pick(&[253usize, 254, 255, 256, 257, 258]),
+        4 => t.range(256, 400) as usize,
+        5 => t.range(65, 252) as usize,
+        _ => 400,
+    };
+    o.class_if(len == 0, "dst-empty");
+    o.class_if(len == 255, "dst-255");
+    o.class_if(len == 256, "dst-256");
+    o.class_if(len > 255, "dst-oversize");
+    gen_bytes(t, len)
+}
+
+fn hexb(b: &[u8]) -> String {
+    let n = b.len().min(12);
+    let s: String = b[..n].iter().map(|x| format!("{:02x}", x)).collect();
+    format!("{}B:{}{}", b.len(), s, if b.len() > n { ".." } else { "" })
+}
+
+/// field element for the maps: 0, ±1, exceptional inputs, edge values, c0 = 0, uniform
+fn gen_u(t: &mut Tape<'_>, f: &Fa, exc: &[(Elem, &'static str)], toy_p: Option<u64>) -> (Elem, &'static str) {
+    if let Some(p) = toy_p {
+        return (Elem::P(BigUint::from(t.below(p))), "toy");
+    }
+    let d = f.tw.degree();
+    match t.weighted(&[1, 1, 1, 5, 4, 2, 7]) {
+        0 => (f.zero(), "u=0"),
+        1 => (f.one(), "u=1"),
+        2 => (f.int(-1), "u=-1"),
+        3 if exc.len() > 1 => {
+            let (e, c) = &exc[t.idx(exc.len())];
+            (e.clone(), *c)
+        },
+        4 => (edge_elem(t, &f.tw, &f.prime).0, "u=edge"),
+        5 => {
+            if d > 1 {
+                let mut c: Vec<BigUint> = (0..d).map(|_| edge_value(t, &f.prime).0).collect();
+                c[0] = BigUint::zero();
+                (f.tw.unflatten(&c), "u.c0=0")
+            } else {
+                (Elem::P(BigUint::from(t.below(1 << 16))), "u=small")
+            }
+        },
+        _ => {
+            let c: Vec<BigUint> = (0..d).map(|_| big_below(t, &f.prime.p)).collect();
+            (f.tw.unflatten(&c), "u=uniform")
+        },
+    }
+}
+
+fn c0_zero(f: &Fa, u: &Elem) -> bool {
+    f.tw.degree() > 1 && !f.is_zero(u) && f.tw.flatten(u)[0].is_zero()
+}
+
+// -----------------------------------------------------------------------------------------------
+// conversions between the BigUint tower and the oracle curve types
+// -----------------------------------------------------------------------------------------------
+
+fn to_sw<F: OracleRepr>(p: &Pt) -> Sw<F> {
+    match p {
+        None => Sw::Inf,
+        Some((x, y)) => Sw::Aff(F::from_o(x), F::from_o(y)),
+    }
+}
+fn from_sw<F: OracleRepr>(p: &Sw<F>) -> Pt {
+    match p {
+        Sw::Inf => None,
+        Sw::Aff(x, y) => Some((x.to_o(), y.to_o())),
+    }
+}
+fn from_affine<P: SWCurveConfig>(p: &SwAffine<P>) -> Pt
+where
+    P::BaseField: OracleRepr,
+{
+    if p.infinity {
+        None
+    } else {
+        Some((p.x.to_o(), p.y.to_o()))
+    }
+}
+fn show_pt(f: &Fa, p: &Pt) -> String {
+    match p {
+        None => "O".into(),
+        Some((x, y)) => format!("({}, {})", f.hex(x), f.hex(y)),
+    }
+}
+fn err<E: core::fmt::Display>(sig: &str) -> impl Fn(E) -> Fail + '_ {
+    move |e| Fail { sig: sig.to_string(), msg: format!("{}: returned Err({})", sig, e) }
+}
+
+// -----------------------------------------------------------------------------------------------
+// hash_to_field
+// -----------------------------------------------------------------------------------------------
+
+/// Every 10th passing hash_to_field case is appended to `$VERIF_ROOT/harness/target/c13-dump/<relation>.txt`
+/// (msg, dst, N, m, p, arkworks' output, all hex) for the hashlib cross-check of `post.sh`. Output only:
+/// nothing is ever read back, so verdicts do not depend on it.
+struct Dump {
+    path: std::path::PathBuf,
+    state: std::sync::Mutex<(u64, Option<std::fs::File>)>,
+}
+
+impl Dump {
+    fn new(rel: &str) -> Dump {
+        let root = std::env::var("VERIF_ROOT").unwrap_or_else(|_| "/verif".to_string());
+        let safe: String = rel.chars().map(|c| if c.is_ascii_alphanumeric() || c == '.' { c } else { '_' }).collect();
+        Dump { path: std::path::Path::new(&root).join("harness/target/c13-dump").join(format!("{}.txt", safe)), state: std::sync::Mutex::new((0, None)) }
+    }
+    fn record(&self, strict: bool, line: impl FnOnce() -> String) {
+        use std::io::Write;
+        if strict {
+            return; // replay mode
+        }
+        let mut st = self.state.lock().unwrap();
+        st.0 += 1;
+        if st.0 % 10 != 1 {
+            return;
+        }
+        if st.1.is_none() {
+            if let Some(d) = self.path.parent() {
+                let _ = std::fs::create_dir_all(d);
+            }
+            st.1 = std::fs::File::create(&self.path).ok();
+        }
+        if let Some(f) = st.1.as_mut() {
+            let _ = writeln!(f, "{}", line());
+        }
+    }
+}
+
+fn hexs(b: &[u8]) -> String {
+    if b.is_empty() {
+        "-".to_string()
+    } else {
+        b.iter().map(|x| format!("{:02x}", x)).collect()
+    }
+}
+
+fn h2f_n<F: Field, H: FixedOutputReset + Default + Clone, const N: usize>(dst: &[u8], msg: &[u8]) -> Vec<F> {
+    let h = <DefaultFieldHasher<H, 128> as HashToField<F>>::new(dst);
+    let a: [F; N] = h.hash_to_field::<N>(msg);
+    a.to_vec()
+}
+
+fn h2f_any<F: Field, H: FixedOutputReset + Default + Clone>(n: usize, dst: &[u8], msg: &[u8]) -> Vec<F> {
+    match n {
+        1 => h2f_n::<F, H, 1>(dst, msg),
+        2 => h2f_n::<F, H, 2>(dst, msg),
+        3 => h2f_n::<F, H, 3>(dst, msg),
+        4 => h2f_n::<F, H, 4>(dst, msg),
+        _ => h2f_n::<F, H, 8>(dst, msg),
+    }
+}
+
+/// `hash_to_field::<N>` equals RFC 9380 section 5.2 (fields whose L equals the SHA-256 block size, see O2)
+fn h2f_rel<F: OracleRepr>(f: &Fa, name: &str, dump: &Dump, t: &mut Tape<'_>, o: &mut Obs) -> R {
+    let n = t.pick(&[2usize, 1, 3, 4, 8]);
+    let dst = gen_dst(t, o);
+    let msg = gen_msg(t);
+    let m = f.tw.degree();
+    let l = rfc::len_per_elem(&f.prime.p, 128);
+    let blocks = (n * m * l + 31) / 32;
+    o.show(|| format!("{}: hash_to_field::<{}> msg={} dst={} ({} blocks)", name, n, hexb(&msg), hexb(&dst), blocks));
+    o.nt(dst.len() > 255 || blocks >= 2);
+    o.class_if(msg.is_empty(), "msg-empty");
+    o.class_if(blocks > 8, "blocks>8");
+    o.evals(2);
+    let got: Vec<F> = no_panic("hash_to_field", || h2f_any::<F, Sha256>(n, &dst, &msg))?;
+    let again: Vec<F> = no_panic("hash_to_field", || h2f_any::<F, Sha256>(n, &dst, &msg))?;
+    ensure!(got == again, "hash_to_field.determinism", "two fresh hashers disagree");
+    ensure!(got.iter().all(|x| x.canonical()), "hash_to_field.noncanonical", "non-canonical coordinate");
+    let want = rfc::hash_to_field(&msg, &dst, &f.prime.p, m, n);
+    let got_c: Vec<Vec<BigUint>> = got.iter().map(|x| f.tw.flatten(&x.to_o())).collect();
+    if got_c != want {
+        let i = (0..n).find(|i| got_c[*i] != want[*i]).unwrap();
+        return vh_core::fail(
+            "hash_to_field.rfc",
+            format!("element {} of {}: got {:x?} expected {:x?} (msg {} bytes, dst {} bytes)", i, n, got_c[i], want[i], msg.len(), dst.len()),
+        );
+    }
+    dump.record(o.strict, || {
+        let outs: Vec<String> = got_c.iter().flatten().map(|c| format!("{:x}", c)).collect();
+        format!("{} {} {} {} {:x} {}", hexs(&msg), hexs(&dst), n, m, f.prime.p, outs.join(","))
+    });
+    Ok(())
+}
+
+/// fields for which L differs from the block size of the hash (O2): determinism and canonicity only
+fn h2f_det_rel<F: OracleRepr, H: FixedOutputReset + Default + Clone>(name: &str, t: &mut Tape<'_>, o: &mut Obs) -> R {
+    let n = t.pick(&[2usize, 1, 3, 4, 8]);
+    let dst = gen_dst(t, o);
+    let msg = gen_msg(t);
+    o.show(|| format!("{}: hash_to_field::<{}> msg={} dst={} (determinism only)", name, n, hexb(&msg), hexb(&dst)));
+    o.nt(dst.len() > 255 || n >= 2);
+    let got: Vec<F> = no_panic("hash_to_field", || h2f_any::<F, H>(n, &dst, &msg))?;
+    let again: Vec<F> = no_panic("hash_to_field", || h2f_any::<F, H>(n, &dst, &msg))?;
+    ensure!(got == again, "hash_to_field.determinism", "two fresh hashers disagree");
+    ensure!(got.iter().all(|x| x.canonical()), "hash_to_field.noncanonical", "non-canonical coordinate");
+    Ok(())
+}
+
+// -----------------------------------------------------------------------------------------------
+// maps
+// -----------------------------------------------------------------------------------------------
+
+/// simplified SWU onto E': on the curve, sgn0(y) = sgn0(u); equality with RFC 6.6.2 for the RFC suites
+fn swu_rel<P: SWUConfig>(c: &WCtx, t: &mut Tape<'_>, o: &mut Obs) -> R
+where
+    P::BaseField: OracleRepr,
+{
+    let f = &c.f;
+    let (targets, exc) = c.exceptional();
+    let (u, cls) = gen_u(t, f, exc, c.toy_p);
+    o.class(cls);
+    o.show(|| format!("{}: SWU map_to_curve(u = {}) [{}]", c.name, f.hex(&u), cls));
+    let reference = if c.params_ok.is_ok() { Some(swu(f, &c.pr, &u)) } else { None };
+    if let Some(((x, _), tr)) = &reference {
+        let special = tr.tv1_zero || tr.y_zero || targets.contains(x);
+        o.class_if(tr.tv1_zero, "swu:tv1=0");
+        o.class_if(tr.y_zero, "swu:y=0");
+        o.class_if(targets.contains(x), "swu:x-in-kernel-or-2-torsion");
+        o.class_if(tr.gx1_square, "swu:gx1-square");
+        o.nt(special || c0_zero(f, &u));
+    }
+    o.class_if(c0_zero(f, &u), "u.c0=0");
+    let uf = P::BaseField::from_o(&u);
+    let pt = no_panic("swu.map_to_curve", || SWUMap::<P>::map_to_curve(uf))?.map_err(err("swu.map_to_curve"))?;
+    ensure!(!pt.infinity, "swu.infinity", "SWU returned the point at infinity for u = {}", f.hex(&u));
+    let got: Pt = from_affine(&pt);
+    ensure!(
+        sw_on_curve(f, &c.pr.a, &c.pr.b, &got),
+        "swu.off-curve",
+        "SWU image {} of u = {} is not on E'",
+        show_pt(f, &got),
+        f.hex(&u)
+    );
+    let (_, y) = got.as_ref().unwrap();
+    ensure!(
+        f.is_zero(y) || f.sgn0(y) == f.sgn0(&u),
+        "swu.sign",
+        "sgn0(y) != sgn0(u) for u = {}: image {}",
+        f.hex(&u),
+        show_pt(f, &got)
+    );
+    if c.suite != Suite::None {
+        let (want, _) = reference.expect("RFC parameters are valid");
+        ensure!(got == Some(want.clone()), "swu.rfc", "u = {}: got {} expected {}", f.hex(&u), show_pt(f, &got), show_pt(f, &Some(want)));
+    }
+    Ok(())
+}
+
+/// SWU followed by the isogeny: image on E (identity allowed); equality with the reference for the RFC suites
+fn wb_rel<P: WBConfig>(c: &WCtx, t: &mut Tape<'_>, o: &mut Obs) -> R
+where
+    P::BaseField: OracleRepr,
+{
+    let f = &c.f;
+    let (targets, exc) = c.exceptional();
+    let (u, cls) = gen_u(t, f, exc, c.toy_p);
+    o.class(cls);
+    o.show(|| format!("{}: WB map_to_curve(u = {}) [{}]", c.name, f.hex(&u), cls));
+    let reference = if c.params_ok.is_ok() {
+        let (q, tr) = swu(f, &c.pr, &u);
+        let img = iso(f, c.iso.as_ref().unwrap(), &Some(q.clone()));
+        o.class_if(img.is_none(), "wb:kernel->identity");
+        o.class_if(tr.tv1_zero, "swu:tv1=0");
+        o.class_if(tr.y_zero, "swu:y=0");
+        o.nt(tr.tv1_zero || tr.y_zero || targets.contains(&q.0) || c0_zero(f, &u));
+        Some(img)
+    } else {
+        None
+    };
+    o.class_if(c0_zero(f, &u), "u.c0=0");
+    let uf = P::BaseField::from_o(&u);
+    let pt = no_panic("wb.map_to_curve", || WBMap::<P>::map_to_curve(uf))?.map_err(err("wb.map_to_curve"))?;
+    let got: Pt = from_affine(&pt);
+    // RFC 9380 section 6.6.3 / appendix E: a point in the kernel of the isogeny (zero denominator) maps to the
+    // identity. Own signature, so that this one exceptional class can be tracked separately from `wb.off-curve`.
+    if ark_swu_in_kernel::<P>(c, uf)? {
+        o.class("wb:arkworks-swu-point-in-kernel");
+        o.nt(true);
+        ensure!(
+            got.is_none(),
+            "wb.kernel",
+            "u = {}: the SWU image lies in the kernel of the isogeny (x_den = 0 or y_den = 0), RFC 9380 requires the identity, got {} ({})",
+            f.hex(&u),
+            show_pt(f, &got),
+            if sw_on_curve(f, &c.ea, &c.eb, &got) { "on E" } else { "not on E" }
+        );
+    }
+    ensure!(
+        sw_on_curve(f, &c.ea, &c.eb, &got),
+        "wb.off-curve",
+        "WB image {} of u = {} is not on E (reference: {})",
+        show_pt(f, &got),
+        f.hex(&u),
+        reference.as_ref().map(|r| show_pt(f, r)).unwrap_or_default()
+    );
+    if c.suite != Suite::None {
+        let want = reference.unwrap();
+        ensure!(got == want, "wb.rfc", "u = {}: got {} expected {}", f.hex(&u), show_pt(f, &got), show_pt(f, &want));
+    }
+    Ok(())
+}
+
+/// does arkworks' own SWU image of u lie in the kernel of the configured isogeny?
+fn ark_swu_in_kernel<P: WBConfig>(c: &WCtx, uf: P::BaseField) -> Result<bool, Fail>
+where
+    P::BaseField: OracleRepr,
+{
+    let f = &c.f;
+    let m = c.iso.as_ref().unwrap();
+    let q = no_panic("swu.map_to_curve", || SWUMap::<P::IsogenousCurve>::map_to_curve(uf))?.map_err(err("swu.map_to_curve"))?;
+    if q.infinity {
+        return Ok(false);
+    }
+    let x = q.x.to_o();
+    Ok(f.is_zero(&f.peval(&m.xd, &x)) || f.is_zero(&f.peval(&m.yd, &x)))
+}
+
+/// the configured rational map is a group homomorphism E' -> E (so the constants describe an isogeny)
+fn iso_rel<P: WBConfig>(c: &WCtx, t: &mut Tape<'_>, o: &mut Obs) -> R
+where
+    P::BaseField: OracleRepr,
+{
+    let f = &c.f;
+    ensure!(c.params_ok.is_ok(), "iso.params", "SWU parameters of E' unusable: {:?}", c.params_ok);
+    let (_, exc) = c.exceptional();
+    let m = c.iso.as_ref().unwrap();
+    let (u1, _) = gen_u(t, f, exc, c.toy_p);
+    let p1: Pt = Some(swu(f, &c.pr, &u1).0);
+    let kind = t.weighted(&[6, 1, 1, 1]);
+    let p2: Pt = match kind {
+        0 => Some(swu(f, &c.pr, &gen_u(t, f, exc, c.toy_p).0).0),
+        1 => p1.clone(),
+        2 => p1.clone().map(|(x, y)| (x, f.neg(&y))),
+        _ => None,
+    };
+    o.class(["iso:P+Q", "iso:P+P", "iso:P-P", "iso:P+O"][kind]);
+    o.show(|| format!("{}: iso(P+Q) = iso(P)+iso(Q), P = {}, Q = {}", c.name, show_pt(f, &p1), show_pt(f, &p2)));
+    ensure!(sw_on_curve(f, &c.pr.a, &c.pr.b, &p1) && sw_on_curve(f, &c.pr.a, &c.pr.b, &p2), "oracle.swu-off-curve", "reference SWU left E'");
+    let a_iso = P::BaseField::from_o(&c.pr.a);
+    let a_e = P::BaseField::from_o(&c.ea);
+    let sum = from_sw(&sw_add(&a_iso, &to_sw::<P::BaseField>(&p1), &to_sw::<P::BaseField>(&p2)));
+    let (i1, i2, is) = (iso(f, m, &p1), iso(f, m, &p2), iso(f, m, &sum));
+    o.nt(kind == 0 || i1.is_none() || i2.is_none());
+    o.class_if(i1.is_none() || i2.is_none() || (is.is_none() && sum.is_some()), "iso:kernel");
+    for (w, p) in [("P", &i1), ("Q", &i2), ("P+Q", &is)] {
+        ensure!(sw_on_curve(f, &c.ea, &c.eb, p), "iso.off-curve", "iso({}) = {} is not on E", w, show_pt(f, p));
+    }
+    let rhs = from_sw(&sw_add(&a_e, &to_sw::<P::BaseField>(&i1), &to_sw::<P::BaseField>(&i2)));
+    ensure!(is == rhs, "iso.additive", "iso(P+Q) = {} but iso(P)+iso(Q) = {}", show_pt(f, &is), show_pt(f, &rhs));
+    Ok(())
+}
+
+// -----------------------------------------------------------------------------------------------
+// hash_to_curve
+// -----------------------------------------------------------------------------------------------
+
+type WbHasher<P, H> = MapToCurveBasedHasher<SwProj<P>, DefaultFieldHasher<H, 128>, WBMap<P>>;
+type SwuHasher<P, H> = MapToCurveBasedHasher<SwProj<P>, DefaultFieldHasher<H, 128>, SWUMap<P>>;
+type EllHasher<P, H> = MapToCurveBasedHasher<TeProj<P>, DefaultFieldHasher<H, 128>, Elligator2Map<P>>;
+
+fn sw_hash_common<P: SWCurveConfig, HC: HashToCurve<SwProj<P>>>(c: &WCtx, msg: &[u8], dst: &[u8]) -> Result<SwAffine<P>, Fail>
+where
+    P::BaseField: OracleRepr,
+{
+    let f = &c.f;
+    let p1 = no_panic("hash", || HC::new(dst).and_then(|h| h.hash(msg)))?.map_err(err("hash"))?;
+    let p2 = no_panic("hash", || HC::new(dst).and_then(|h| h.hash(msg)))?.map_err(err("hash"))?;
+    ensure!(p1 == p2, "hash.determinism", "two fresh hashers disagree");
+    let got: Pt = from_affine(&p1);
+    ensure!(sw_on_curve(f, &c.ea, &c.eb, &got), "hash.off-curve", "hash {} is not on the curve", show_pt(f, &got));
+    // prime-order subgroup: r * P = O with the oracle's double-and-add
+    let a_e = P::BaseField::from_o(&c.ea);
+    let rp = sw_mul_jac(&a_e, &to_sw::<P::BaseField>(&got), &c.r);
+    ensure!(rp == Sw::Inf, "hash.subgroup", "r * hash != O for hash = {}", show_pt(f, &got));
+    Ok(p1)
+}
+
+/// full hash_to_curve of a WB configuration
+fn hash_wb_rel<P: WBConfig>(c: &WCtx, t: &mut Tape<'_>, o: &mut Obs) -> R
+where
+    P::BaseField: OracleRepr,
+{
+    let f = &c.f;
+    let dst = gen_dst(t, o);
+    let msg = gen_msg(t);
+    o.show(|| format!("{}: hash_to_curve msg={} dst={}", c.name, hexb(&msg), hexb(&dst)));
+    o.nt(true); // hash_to_field::<2> always needs >= 2 blocks
+    o.class_if(msg.is_empty(), "msg-empty");
+    o.evals(5);
+    let us: Vec<P::BaseField> = no_panic("hash_to_field", || h2f_n::<P::BaseField, Sha256, 2>(&dst, &msg))?;
+    for u in &us {
+        if ark_swu_in_kernel::<P>(c, *u)? {
+            o.class("wb:arkworks-swu-point-in-kernel");
+            let q = no_panic("wb.map_to_curve", || WBMap::<P>::map_to_curve(*u))?.map_err(err("wb.map_to_curve"))?;
+            ensure!(q.infinity, "hash.kernel", "hash_to_field element {} maps into the kernel of the isogeny, map_to_curve returns {} instead of the identity", f.hex(&u.to_o()), show_pt(f, &from_affine(&q)));
+        }
+    }
+    let p1 = sw_hash_common::<P, WbHasher<P, Sha256>>(c, &msg, &dst)?;
+    let got: Pt = from_affine(&p1);
+    let a_e = P::BaseField::from_o(&c.ea);
+    if c.suite != Suite::None {
+        // RFC 9380 section 3: hash_to_curve = clear_cofactor(map_to_curve(u0) + map_to_curve(u1)), all by the reference
+        let m = f.tw.degree();
+        let want_u: Vec<Elem> = rfc::hash_to_field(&msg, &dst, &f.prime.p, m, 2).iter().map(|cs| f.tw.unflatten(cs)).collect();
+        let got_u: Vec<Elem> = us.iter().map(|x| x.to_o()).collect();
+        ensure!(got_u == want_u, "hash.u.rfc", "hash_to_field: got {:?} expected {:?}", got_u.iter().map(|e| f.hex(e)).collect::<Vec<_>>(), want_u.iter().map(|e| f.hex(e)).collect::<Vec<_>>());
+        let q: Vec<Pt> = want_u.iter().map(|u| iso(f, c.iso.as_ref().unwrap(), &Some(swu(f, &c.pr, u).0))).collect();
+        let sum = sw_add(&a_e, &to_sw::<P::BaseField>(&q[0]), &to_sw::<P::BaseField>(&q[1]));
+        let want = from_sw(&sw_mul_jac(&a_e, &sum, c.h_eff.as_ref().unwrap()));
+        ensure!(got == want, "hash.rfc", "msg={} dst={}: got {} expected {}", hexb(&msg), hexb(&dst), show_pt(f, &got), show_pt(f, &want));
+    } else {
+        // structure only: the hasher composes the configuration's own map and cofactor clearing
+        let q0 = no_panic("wb.map_to_curve", || WBMap::<P>::map_to_curve(us[0]))?.map_err(err("wb.map_to_curve"))?;
+        let q1 = no_panic("wb.map_to_curve", || WBMap::<P>::map_to_curve(us[1]))?.map_err(err("wb.map_to_curve"))?;
+        let sum = sw_add(&a_e, &to_sw::<P::BaseField>(&from_affine(&q0)), &to_sw::<P::BaseField>(&from_affine(&q1)));
+        let cleared = P::clear_cofactor(&vh_core::curve::sw_to_affine::<P>(&sum));
+        ensure!(p1 == cleared, "hash.composition", "hash != clear_cofactor(map(u0) + map(u1))");
+    }
+    Ok(())
+}
+
+/// full hash_to_curve through the plain SWU map (toy curves with A*B != 0)
+fn hash_swu_rel<P: SWUConfig>(c: &WCtx, t: &mut Tape<'_>, o: &mut Obs) -> R
+where
+    P::BaseField: OracleRepr,
+{
+    let dst = gen_dst(t, o);
+    let msg = gen_msg(t);
+    o.show(|| format!("{}: hash_to_curve (SWU) msg={} dst={}", c.name, hexb(&msg), hexb(&dst)));
+    o.nt(true);
+    sw_hash_common::<P, SwuHasher<P, Sha256>>(c, &msg, &dst).map(|_| ())
+}
+
+// -----------------------------------------------------------------------------------------------
+// Elligator 2
+// -----------------------------------------------------------------------------------------------
+
+struct ECtx {
+    name: String,
+    f: Fa,
+    pr: Ell2Params,
+    a: Elem,
+    d: Elem,
+    r: BigUint,
+    toy_p: Option<u64>,
+    exc: Vec<(Elem, &'static str)>,
+}
+
+fn ell_ctx<P: Elligator2Config>(name: &str, toy_p: Option<u64>) -> ECtx
+where
+    P::BaseField: OracleRepr,
+{
+    let f = Fa::new(<P::BaseField as OracleRepr>::tower());
+    let pr = Ell2Params { j: <P as MontCurveConfig>::COEFF_A.to_o(), k: <P as MontCurveConfig>::COEFF_B.to_o(), z: P::Z.to_o() };
+    let exc = ell2_exceptional(&f, &pr);
+    ECtx { name: name.to_string(), a: <P as TECurveConfig>::COEFF_A.to_o(), d: <P as TECurveConfig>::COEFF_D.to_o(), r: scalar_modulus::<P>(), f, pr, toy_p, exc }
+}
+
+fn te_on_curve_ref(f: &Fa, a: &Elem, d: &Elem, v: &Elem, w: &Elem) -> bool {
+    let (v2, w2) = (f.sq(v), f.sq(w));
+    f.add(&f.mul(a, &v2), &w2) == f.add(&f.one(), &f.mul(d, &f.mul(&v2, &w2)))
+}
+
+/// Elligator 2: image on the twisted Edwards curve; sign rule of RFC 6.7.1 (sgn0(y) = 1 iff g(x1) is a square)
+fn ell_rel<P: Elligator2Config>(c: &ECtx, t: &mut Tape<'_>, o: &mut Obs) -> R
+where
+    P::BaseField: OracleRepr,
+{
+    let f = &c.f;
+    let (u, cls) = gen_u(t, f, &c.exc, c.toy_p);
+    o.class(cls);
+    o.show(|| format!("{}: Elligator2 map_to_curve(u = {}) [{}]", c.name, f.hex(&u), cls));
+    ensure!(!f.is_square(&c.pr.z), "ell2.params", "Z is a square");
+    let ((_, ry), tr) = ell2_weierstrass_like(f, &c.pr, &u);
+    o.nt(tr.den_zero || f.is_zero(&u) || f.is_zero(&ry));
+    o.class_if(tr.den_zero, "ell2:1+Zu^2=0");
+    o.class_if(f.is_zero(&ry), "ell2:y=0");
+    o.class_if(tr.gx1_square, "ell2:gx1-square");
+    let uf = P::BaseField::from_o(&u);
+    let pt: TeAffine<P> = no_panic("ell2.map_to_curve", || Elligator2Map::<P>::map_to_curve(uf))?.map_err(err("ell2.map_to_curve"))?;
+    let (v, w) = (pt.x.to_o(), pt.y.to_o());
+    ensure!(te_on_curve_ref(f, &c.a, &c.d, &v, &w), "ell2.off-curve", "image ({}, {}) of u = {} is not on the curve", f.hex(&v), f.hex(&w), f.hex(&u));
+    // back to Montgomery coordinates: s = (1 + w)/(1 - w), t = s / v, y = t / K
+    if f.is_zero(&v) || w == f.one() {
+        o.class("ell2:image-exceptional");
+        return Ok(());
+    }
+    let s = f.div(&f.add(&f.one(), &w), &f.sub(&f.one(), &w));
+    let y = f.div(&f.div(&s, &v), &c.pr.k);
+    ensure!(
+        f.is_zero(&y) || f.sgn0(&y) == tr.gx1_square,
+        "ell2.sign",
+        "u = {}: sgn0(y) = {} but is_square(g(x1)) = {}",
+        f.hex(&u),
+        f.sgn0(&y),
+        tr.gx1_square
+    );
+    Ok(())
+}
+
+fn hash_ell_rel<P: Elligator2Config, H: FixedOutputReset + Default + Clone>(c: &ECtx, t: &mut Tape<'_>, o: &mut Obs) -> R
+where
+    P::BaseField: OracleRepr,
+{
+    let f = &c.f;
+    let dst = gen_dst(t, o);
+    let msg = gen_msg(t);
+    o.show(|| format!("{}: hash_to_curve (Elligator2) msg={} dst={}", c.name, hexb(&msg), hexb(&dst)));
+    o.nt(true);
+    let p1: TeAffine<P> = no_panic("hash", || EllHasher::<P, H>::new(&dst).and_then(|h| h.hash(&msg)))?.map_err(err("hash"))?;
+    let p2: TeAffine<P> = no_panic("hash", || EllHasher::<P, H>::new(&dst).and_then(|h| h.hash(&msg)))?.map_err(err("hash"))?;
+    ensure!(p1 == p2, "hash.determinism", "two fresh hashers disagree");
+    let (v, w) = (p1.x.to_o(), p1.y.to_o());
+    ensure!(te_on_curve_ref(f, &c.a, &c.d, &v, &w), "hash.off-curve", "hash ({}, {}) is not on the curve", f.hex(&v), f.hex(&w));
+    let (a, d) = (P::BaseField::from_o(&c.a), P::BaseField::from_o(&c.d));
+    match te_mul(&a, &d, &Te(p1.x, p1.y), &c.r) {
+        Some(rp) => ensure!(rp == te_identity(), "hash.subgroup", "r * hash != O for hash = ({}, {})", f.hex(&v), f.hex(&w)),
+        None => o.class("oracle:incomplete-te-law"),
+    }
+    Ok(())
+}
+
+// -----------------------------------------------------------------------------------------------
+// anchors: official test vectors, parameters
+// -----------------------------------------------------------------------------------------------
+
+fn vec_elem(f: &Fa, cs: &[&str]) -> Elem {
+    let v: Vec<BigUint> = cs.iter().map(|s| big_hex(s)).collect();
+    f.tw.unflatten(&v)
+}
+
+/// RFC 9380 appendix J.9.1 / J.10.1: the reference and arkworks both reproduce u, Q0, Q1, P
+fn anchor_rel<P: WBConfig>(c: &WCtx, t: &mut Tape<'_>, o: &mut Obs) -> R
+where
+    P::BaseField: OracleRepr,
+{
+    let f = &c.f;
+    let (table, dst) = if c.suite == Suite::G1 { (vectors::G1, vectors::G1_DST) } else { (vectors::G2, vectors::G2_DST) };
+    let v = &table[t.idx(table.len())];
+    let msg = vectors::long_msg(v.msg).into_bytes();
+    let dst = dst.as_bytes();
+    o.show(|| format!("{}: RFC 9380 vector msg={:?} ({} bytes)", c.name, v.msg, msg.len()));
+    o.nt(true);
+    o.evals(8);
+    let e: Vec<Elem> = v.vals.iter().map(|cs| vec_elem(f, cs)).collect();
+    let (u, q0, q1, p): (Vec<Elem>, Pt, Pt, Pt) =
+        (vec![e[0].clone(), e[1].clone()], Some((e[2].clone(), e[3].clone())), Some((e[4].clone(), e[5].clone())), Some((e[6].clone(), e[7].clone())));
+    // the reference reproduces the vector
+    let m = f.tw.degree();
+    let ru: Vec<Elem> = rfc::hash_to_field(&msg, dst, &f.prime.p, m, 2).iter().map(|cs| f.tw.unflatten(cs)).collect();
+    ensure!(ru == u, "oracle.u", "the reference hash_to_field does not reproduce the RFC vector");
+    let rq: Vec<Pt> = u.iter().map(|x| iso(f, c.iso.as_ref().unwrap(), &Some(swu(f, &c.pr, x).0))).collect();
+    ensure!(rq[0] == q0 && rq[1] == q1, "oracle.q", "the reference map does not reproduce Q0/Q1: {} {}", show_pt(f, &rq[0]), show_pt(f, &rq[1]));
+    let a_e = P::BaseField::from_o(&c.ea);
+    let sum = sw_add(&a_e, &to_sw::<P::BaseField>(&q0), &to_sw::<P::BaseField>(&q1));
+    let rp = from_sw(&sw_mul_jac(&a_e, &sum, c.h_eff.as_ref().unwrap()));
+    ensure!(rp == p, "oracle.p", "the reference does not reproduce P: {}", show_pt(f, &rp));
+    // arkworks reproduces the vector
+    let us: Vec<P::BaseField> = no_panic("hash_to_field", || h2f_n::<P::BaseField, Sha256, 2>(dst, &msg))?;
+    ensure!(us.iter().map(|x| x.to_o()).collect::<Vec<_>>() == u, "vector.u", "hash_to_field differs from the RFC vector");
+    for (i, want) in [&q0, &q1].iter().enumerate() {
+        let q = no_panic("wb.map_to_curve", || WBMap::<P>::map_to_curve(us[i]))?.map_err(err("wb.map_to_curve"))?;
+        ensure!(from_affine(&q) == **want, "vector.q", "map_to_curve(u{}) = {} differs from the RFC vector", i, show_pt(f, &from_affine(&q)));
+    }
+    let h = no_panic("hash", || WbHasher::<P, Sha256>::new(dst).and_then(|h| h.hash(&msg)))?.map_err(err("hash"))?;
+    ensure!(from_affine(&h) == p, "vector.p", "hash = {} differs from the RFC vector", show_pt(f, &from_affine(&h)));
+    Ok(())
+}
+
+/// the configuration's constants equal the RFC's, `check_parameters` accepts them
+fn params_rel<P: WBConfig>(c: &WCtx, _t: &mut Tape<'_>, o: &mut Obs) -> R
+where
+    P::BaseField: OracleRepr,
+{
+    let f = &c.f;
+    o.show(|| format!("{}: parameters", c.name));
+    o.nt(true);
+    no_panic("check_parameters", || WBMap::<P>::check_parameters())?.map_err(err("check_parameters"))?;
+    ensure!(c.params_ok.is_ok(), "params.swu", "E' parameters violate RFC 9380 appendix H.2: {:?}", c.params_ok);
+    if c.suite != Suite::None {
+        ensure_eq!(f.prime.p, big_hex(BLS381_P), "params.p");
+        ensure_eq!(scalar_modulus::<P>(), big_hex(BLS381_R), "params.r");
+        ensure_eq!(<P::IsogenousCurve as SWCurveConfig>::COEFF_A.to_o(), c.pr.a, "params.A'");
+        ensure_eq!(<P::IsogenousCurve as SWCurveConfig>::COEFF_B.to_o(), c.pr.b, "params.B'");
+        ensure_eq!(<P::IsogenousCurve as SWUConfig>::ZETA.to_o(), c.pr.z, "params.Z");
+        ensure_eq!(P::COEFF_A.to_o(), c.ea, "params.A");
+        ensure_eq!(P::COEFF_B.to_o(), c.eb, "params.B");
+        ensure_eq!(rfc::len_per_elem(&f.prime.p, 128), 64, "params.L");
+    }
+    Ok(())
+}
+
+/// self-check of the reference against RFC 9380 appendix K.1 (includes the oversize DST)
+fn xmd_oracle_rel(t: &mut Tape<'_>, o: &mut Obs) -> R {
+    let (dst, msg, len, want) = vectors::XMD[t.idx(vectors::XMD.len())];
+    let msg = vectors::long_msg(msg).into_bytes();
+    o.show(|| format!("expand_message_xmd reference vs RFC K.1: msg {} bytes, dst {} bytes, len {}", msg.len(), dst.len(), len));
+    o.nt(true);
+    let got: String = rfc::expand_message_xmd(&msg, dst.as_bytes(), len).iter().map(|b| format!("{:02x}", b)).collect();
+    ensure!(got == want, "oracle.xmd", "reference expand_message_xmd differs from RFC 9380 K.1: {}", got);
+    Ok(())
+}
+
+/// self-check: the fast square test / square root of the reference agree with the Euler criterion and
+/// Tonelli–Shanks computed by schoolbook exponentiation in the whole field
+fn algebra_oracle_rel(f: &Fa, name: &str, t: &mut Tape<'_>, o: &mut Obs) -> R {
+    let (x, cls) = edge_elem(t, &f.tw, &f.prime);
+    let a = if t.bool() { f.sq(&x) } else { x.clone() };
+    o.class(cls);
+    o.show(|| format!("{}: is_square/sqrt of {}", name, f.hex(&a)));
+    o.nt(!f.is_zero(&a));
+    let sq = f.is_square(&a);
+    ensure!(sq == f.slow_is_square(&a), "oracle.is_square", "norm-based square test differs from the Euler criterion for {}", f.hex(&a));
+    match (f.sqrt(&a), f.slow_sqrt(&a)) {
+        (Some(r), Some(s)) => ensure!(sq && f.sq(&r) == a && (r == s || r == f.neg(&s)), "oracle.sqrt", "square roots disagree"),
+        (None, None) => ensure!(!sq, "oracle.sqrt", "square without a root"),
+        _ => return vh_core::fail("oracle.sqrt", "fast and slow square roots disagree on existence"),
+    }
+    Ok(())
+}
+
+/// self-check: the inversion-free double-and-add equals the textbook affine oracle of `vh_core::curve`
+fn jacobian_oracle_rel<P: WBConfig>(c: &WCtx, t: &mut Tape<'_>, o: &mut Obs) -> R
+where
+    P::BaseField: OracleRepr,
+{
+    let f = &c.f;
+    let (_, exc) = c.exceptional();
+    let (u, _) = gen_u(t, f, exc, c.toy_p);
+    let q = iso(f, c.iso.as_ref().unwrap(), &Some(swu(f, &c.pr, &u).0));
+    let k = match t.weighted(&[4, 1, 1, 1]) {
+        0 => big(&vh_core::gen::edge_int(t, 3)),
+        1 => c.r.clone(),
+        2 => &c.r - 1u32,
+        _ => BigUint::from(t.below(16)),
+    };
+    o.show(|| format!("{}: [{:x}] * {}", c.name, k, show_pt(f, &q)));
+    o.nt(k.bits() > 1 && q.is_some());
+    let a_e = P::BaseField::from_o(&c.ea);
+    let p = to_sw::<P::BaseField>(&q);
+    ensure!(sw_mul_jac(&a_e, &p, &k) == sw_mul(&a_e, &p, &k), "oracle.jacobian", "Jacobian and affine double-and-add disagree");
+    Ok(())
+}
+
+// -----------------------------------------------------------------------------------------------
+// relation table
+// -----------------------------------------------------------------------------------------------
+
+const TAPE_MSG: usize = 104; // 300 + 400 bytes and a few selectors
+
+fn relations(tier: Tier) -> Vec<Rel> {
+    let mut out: Vec<Rel> = Vec::new();
+    let q = |n: u32| tier.pick(n, n * 20);
+
+    out.push(Rel::new("oracle/expand_message_xmd.K1", 0, 1, xmd_oracle_rel).exhaustive(|| Box::new((0..vectors::XMD.len() as u64).map(|i| vec![i]))));
+
+    macro_rules! alg {
+        ($f:ty, $name:expr) => {{
+            let fa = Arc::new(Fa::new(<$f as OracleRepr>::tower()));
+            out.push(Rel::new(format!("oracle/field-algebra.{}", $name), tier.pick(60, 400), 16, move |t, o| algebra_oracle_rel(&fa, $name, t, o)));
+        }};
+    }
+    alg!(ark_bls12_381::Fq, "bls12_381.Fq");
+    alg!(ark_bls12_381::Fq2, "bls12_381.Fq2");
+    alg!(ark_bls12_377::Fq, "bls12_377.Fq");
+    alg!(ark_bls12_377::Fq2, "bls12_377.Fq2");
+    alg!(vh_core::toy::Tf113, "toy.F113");
+
+    // ---- hash_to_field -------------------------------------------------------------------------
+    macro_rules! h2f {
+        ($f:ty, $name:expr, $cases:expr) => {{
+            let fa = Arc::new(Fa::new(<$f as OracleRepr>::tower()));
+            assert_eq!(rfc::len_per_elem(&fa.prime.p, 128), 64, "RFC equality is claimed only when L = 64");
+            let dump = Dump::new($name);
+            out.push(Rel::new(format!("hash_to_field/{}", $name), q($cases), TAPE_MSG, move |t, o| h2f_rel::<$f>(&fa, $name, &dump, t, o)));
+        }};
+    }
+    h2f!(ark_test_curves::bls12_381::Fq, "test.bls12_381.Fq", 1500);
+    h2f!(ark_test_curves::bls12_381::Fq2, "test.bls12_381.Fq2", 1500);
+    h2f!(ark_bls12_381::Fq, "bls12_381.Fq", 1500);
+    h2f!(ark_bls12_381::Fq2, "bls12_381.Fq2", 1500);
+    h2f!(ark_bls12_377::Fq, "bls12_377.Fq", 800);
+    h2f!(ark_bls12_377::Fq2, "bls12_377.Fq2", 800);
+    out.push(Rel::new("hash_to_field.det/bandersnatch.Fq.sha512", q(400), TAPE_MSG, |t, o| {
+        h2f_det_rel::<ark_ed_on_bls12_381_bandersnatch::Fq, Sha512>("bandersnatch.Fq/SHA-512", t, o)
+    }));
+    out.push(Rel::new("hash_to_field.det/toy.F101.sha256", q(400), TAPE_MSG, |t, o| h2f_det_rel::<vh_core::toy::Tf101, Sha256>("toy.F101/SHA-256", t, o)));
+
+    // ---- WB configurations ---------------------------------------------------------------------
+    macro_rules! wb {
+        ($p:ty, $name:expr, $suite:expr, $toy:expr, $maps:expr, $hashes:expr, $shards:expr) => {{
+            let c = Arc::new(wb_ctx::<$p>($name, $suite, $toy));
+            let toy: Option<u64> = $toy;
+            let cc = c.clone();
+            out.push(Rel::new(format!("params/{}", $name), 0, 1, move |t, o| params_rel::<$p>(&cc, t, o)).exhaustive(|| Box::new(std::iter::once(vec![0u64]))));
+            if $suite != Suite::None {
+                let cc = c.clone();
+                out.push(Rel::new(format!("rfc-vectors/{}", $name), 0, 1, move |t, o| anchor_rel::<$p>(&cc, t, o)).exhaustive(|| Box::new((0..5u64).map(|i| vec![i]))));
+            }
+            let mk = |r: Rel| -> Rel {
+                match toy {
+                    Some(p) => r.exhaustive(move || Box::new((0..p).map(|u| vec![u]))),
+                    None => r,
+                }
+            };
+            let n_maps = if toy.is_some() { 0 } else { q($maps) };
+            if toy.is_none() {
+                let cc = c.clone();
+                out.push(Rel::new(format!("oracle/jacobian.{}", $name), tier.pick(60, 400), 60, move |t, o| jacobian_oracle_rel::<$p>(&cc, t, o)));
+            }
+            let cc = c.clone();
+            out.push(mk(Rel::new(format!("swu/{}.iso", $name), n_maps, 40, move |t, o| swu_rel::<<$p as WBConfig>::IsogenousCurve>(&cc, t, o))));
+            let cc = c.clone();
+            out.push(mk(Rel::new(format!("wb/{}", $name), n_maps, 40, move |t, o| wb_rel::<$p>(&cc, t, o))));
+            let cc = c.clone();
+            let r = Rel::new(format!("isogeny/{}", $name), if toy.is_some() { 0 } else { q($maps / 2) }, 80, move |t, o| iso_rel::<$p>(&cc, t, o));
+            out.push(match toy {
+                // exact mode: `weighted(&[6,1,1,1])` reads word % 9: 0 => P+Q, 6 => P+P, 7 => P-P, 8 => P+O
+                Some(p) => r.exhaustive(move || {
+                    Box::new((0..p).flat_map(move |a| (0..p).map(move |b| vec![a, 0, b]).chain((6..9u64).map(move |k| vec![a, k, 0]))))
+                }),
+                None => r,
+            });
+            for s in 0..$shards {
+                let cc = c.clone();
+                out.push(
+                    Rel::new(format!("hash/{}#{}", $name, s), q($hashes) / $shards, TAPE_MSG, move |t, o| hash_wb_rel::<$p>(&cc, t, o)).shrink_iters(300),
+                );
+            }
+        }};
+    }
+    wb!(ark_test_curves::bls12_381::g1::Config, "test.bls12_381.G1", Suite::G1, None, 800, 1500, 2);
+    wb!(ark_test_curves::bls12_381::g2::Config, "test.bls12_381.G2", Suite::G2, None, 800, 1500, 4);
+    wb!(ark_bls12_381::g1::Config, "bls12_381.G1", Suite::G1, None, 800, 1500, 2);
+    wb!(ark_bls12_381::g2::Config, "bls12_381.G2", Suite::G2, None, 800, 1500, 4);
+    wb!(ark_bls12_377::g1::Config, "bls12_377.G1", Suite::None, None, 600, 400, 1);
+    wb!(ark_bls12_377::g2::Config, "bls12_377.G2", Suite::None, None, 600, 400, 1);
+    wb!(toys::Wb127, "toy.Wb127", Suite::None, Some(127), 0, 300, 1);
+    wb!(toys::Wb113, "toy.Wb113", Suite::None, Some(113), 0, 300, 1);
+
+    // ---- plain SWU toy curves --------------------------------------------------------------------
+    macro_rules! swu_toy {
+        ($p:ty, $name:expr, $prime:expr, $big:expr) => {{
+            {
+                let c = Arc::new(swu_ctx::<$p>($name, Some($prime)));
+                let cc = c.clone();
+                out.push(Rel::new(format!("swu/{}", $name), 0, 1, move |t, o| swu_rel::<$p>(&cc, t, o)).exhaustive(|| Box::new((0..$prime as u64).map(|u| vec![u]))));
+                let cc = c.clone();
+                out.push(Rel::new(format!("hash/{}", $name), q(300), TAPE_MSG, move |t, o| hash_swu_rel::<$p>(&cc, t, o)));
+            }
+        }};
+    }
+    swu_toy!(toys::SwuAxP1, "toy.SwuAxP1", 101u64, false);
+    swu_toy!(toys::SwuAxH4, "toy.SwuAxH4", 113u64, false);
+    swu_toy!(toys::SwuAxH2, "toy.SwuAxH2", 89u64, false);
+    swu_toy!(toys::SwuAm3, "toy.SwuAm3", 107u64, false);
+    swu_toy!(toys::SwuBigAx, "toy.SwuBigAx", 1021u64, true);
+
+    // ---- Elligator 2 -----------------------------------------------------------------------------
+    macro_rules! ell {
+        ($p:ty, $h:ty, $name:expr, $toy:expr, $maps:expr, $hashes:expr) => {{
+            let c = Arc::new(ell_ctx::<$p>($name, $toy));
+            let toy: Option<u64> = $toy;
+            let cc = c.clone();
+            let r = Rel::new(format!("elligator2/{}", $name), if toy.is_some() { 0 } else { q($maps) }, 40, move |t, o| ell_rel::<$p>(&cc, t, o));
+            out.push(match toy {
+                Some(p) => r.exhaustive(move || Box::new((0..p).map(|u| vec![u]))),
+                None => r,
+            });
+            if $hashes > 0 {
+                let cc = c.clone();
+                out.push(Rel::new(format!("hash/{}", $name), q($hashes), TAPE_MSG, move |t, o| hash_ell_rel::<$p, $h>(&cc, t, o)));
+            }
+        }};
+    }
+    ell!(ark_ed_on_bls12_381_bandersnatch::BandersnatchConfig, Sha512, "bandersnatch", None, 800, 300);
+    ell!(toys::EllC1, Sha256, "toy.EllC1", Some(101), 0, 200);
+    ell!(toys::EllCm1, Sha256, "toy.EllCm1", Some(109), 0, 200);
+    ell!(toys::EllC5, Sha256, "toy.EllC5", Some(89), 0, 200);
+    ell!(toys::EllN, Sha256, "toy.EllN", Some(103), 0, 0); // incomplete addition law (C03): maps only
+    ell!(toys::EllN2, Sha256, "toy.EllN2", Some(107), 0, 0);
+    ell!(toys::EllBig, Sha256, "toy.EllBig", Some(1013), 0, 200);
+    ell!(toys::EllRepo101, Sha256, "toy.EllRepo101", Some(101), 0, 200);
+    out
+}
+
 fn main() {
-    eprintln!("C13: check not implemented");
-    std::process::exit(2);
+    vh_core::engine::main(PropSpec {
+        id: "C13",
+        rule: "Cases are decoded from a proptest tape. (msg, DST): messages of 0..=300 bytes (lengths around the SHA-256 block/padding boundaries favoured; random, all-zero or all-0xff content), DSTs of 0..=400 bytes (0, 1..16, 17..64, 65..252, 253..258, 256..400, 400), hash_to_field::<N> for N in {1,2,3,4,8}. Map inputs u: 0, 1, -1, edge values, elements of Fp2 with c0 = 0, uniform, and the exceptional inputs computed by the harness (roots of Z^2u^4+Zu^2; every u whose SWU image is a 2-torsion point of E' or lies in the kernel of the configured isogeny, found by factoring g and the isogeny denominators over the field; roots of 1+Zu^2 for Elligator 2); toy configurations (SWU over F_89..F_1021, a 13-isogeny over F_127, a 2-isogeny with rational kernel over F_113, Elligator 2 over F_89..F_1013) are enumerated over every u. RFC 9380 equality (hash_to_field, map_to_curve, hash_to_curve against an independent sha2+BigUint reference and the official appendix J/K vectors) is claimed for the suites BLS12381G1_XMD:SHA-256_SSWU_RO_ and BLS12381G2_XMD:SHA-256_SSWU_RO_ in both test-curves and curves/bls12_381, and for hash_to_field over the BLS12-377 fields (L = 64 = SHA-256 block size); for BLS12-377 G1/G2 (WB), Bandersnatch (Elligator 2, SHA-512) and the toy configurations only determinism, image on the curve (harness equation), the sign convention of the map, kernel -> identity, hash = clear_cofactor(map(u0)+map(u1)) and r*hash = O are checked, because DefaultFieldHasher uses L as the XMD block size (observation O2). A case is non-trivial when |DST| > 255, or the expansion needs >= 2 SHA-256 blocks, or u is an exceptional input (tv1 = 0, image of order 2, image in the isogeny kernel, 1+Zu^2 = 0, u = 0), or u in Fp2 has c0 = 0; for the isogeny-additivity relation: P != +-Q or a kernel point is involved; distinct = distinct decoded choice sequences.",
+        assumptions: &[
+            "the sha2 crate computes SHA-256/SHA-512 correctly (the reference is additionally anchored to the RFC 9380 appendix K.1 and J.9.1/J.10.1 vectors; the thorough tier re-computes samples with Python hashlib)",
+            "num-bigint arithmetic is correct; the harness' fast square test/square root (norm method) and Jacobian double-and-add are cross-checked against Euler/Tonelli-Shanks and the textbook affine law in the oracle/* relations",
+            "group additions and scalar multiplications of the reference use arkworks field arithmetic (subject of C01/C02) under the harness' own curve formulas",
+            "RFC equality is not claimed where L = ceil((log2 p + 128)/8) differs from the hash block size (O2); twisted Edwards toy curves with an incomplete addition law are excluded from the hash relations (their group law is C03's subject)",
+            "E', Z, h_eff of the two RFC suites are typed from RFC 9380 section 8.8; the isogeny coefficients are taken from /repo and validated as a homomorphism E' -> E plus the official vectors",
+        ],
+        relations,
+    })
 }
